@@ -489,6 +489,46 @@ impl GroupedQuantity {
         }
     }
 
+    /// Merge the group with another one when there is no converter at hand
+    ///
+    /// Both groups have to come from the same converter. Totals with the same
+    /// unit are added; as nothing can be converted here, a total in another
+    /// unit is kept as a separate quantity.
+    pub(crate) fn absorb(&mut self, other: Self) {
+        fn join(stored: &mut ScaledQuantity, q: ScaledQuantity, rest: &mut Vec<ScaledQuantity>) {
+            if stored.unit == q.unit {
+                if let Ok(value) = stored.value.try_add(&q.value) {
+                    stored.value = value;
+                    return;
+                }
+            }
+            rest.push(q);
+        }
+
+        for (physical_quantity, q) in other.known {
+            let Some(q) = q else { continue };
+            match &mut self.known[physical_quantity] {
+                Some(stored) => join(stored, q, &mut self.other),
+                empty => *empty = Some(q),
+            }
+        }
+        for (unit, q) in other.unknown {
+            match self.unknown.get_mut(&unit) {
+                Some(stored) => join(stored, q, &mut self.other),
+                None => {
+                    self.unknown.insert(unit, q);
+                }
+            }
+        }
+        if let Some(q) = other.no_unit {
+            match &mut self.no_unit {
+                Some(stored) => join(stored, q, &mut self.other),
+                empty => *empty = Some(q),
+            }
+        }
+        self.other.extend(other.other);
+    }
+
     /// Calls [`Quantity::fit`] on all possible underlying units
     ///
     /// This will try to avoid fitting quantities that will produce an error
